@@ -376,7 +376,7 @@ static void step(char *line) {
     do_slice((unsigned)strtoul(w[1], 0, 10), (unsigned)strtoul(w[2], 0, 10), strtoull(w[3], 0, 10), (unsigned)strtoul(w[4], 0, 10));
   } else if (!strcmp(w[0], "rb") && n == 4) {
     do_rb(w[1], (unsigned)strtoul(w[2], 0, 10), (unsigned)strtoul(w[3], 0, 10));
-  } else if (!strcmp(w[0], "body") && n == 4) {
+  } else if (!strcmp(w[0], "bbody") && n == 4) {
     do_body(strtoull(w[1], 0, 10), (unsigned)strtoul(w[2], 0, 10), w[3]);
   } else if (!strcmp(w[0], "srcv") && n == 6) {
     do_srcv((unsigned)strtoul(w[1], 0, 10), strtoull(w[2], 0, 10), (unsigned)strtoul(w[3], 0, 10),
